@@ -85,8 +85,9 @@ Definition gen_olist (s : st) : st :=
   match olist s with Some _ => s | None => set_olist s (Some (loose s)) end.
 Definition olist_val (s : st) : oset := match olist s with Some l => l | None => 0 end.
 
-(* genPackList; cleanPackList also drops every cached PackHandle *)
-Definition clean_plist (s : st) : st := set_handles (set_plist s None) [].
+(* genPackList; NewObjectPack forgets the cached list only (forgetPackList): the
+   cached PackHandles stay — dropping them failed concurrent reads (C23) *)
+Definition clean_plist (s : st) : st := set_plist s None.
 Definition gen_plist (s : st) : st :=
   match plist s with Some _ => s | None => set_plist s (Some (packs s)) end.
 Definition plist_val (s : st) : list pid := match plist s with Some l => l | None => [] end.
